@@ -1415,7 +1415,7 @@ theorem runActs_append (sc : Sched ℚ (DRR.Ctl ℚ)) (as bs : List (MAct ℚ)) 
 the new configuration's LTS state, with the packets that entered and left -/
 def LtsOK (flow size : Int → Nat) (cfg : DRR.Cfg ℚ) (Lmax : Nat) (a : A) (hist : List (HEv ℚ)) (t : ℚ) (a' : A)
     (new : List (HEv ℚ)) : Prop :=
-  ∃ acts, (∀ x ∈ acts, DRR.ActOk (Lmax : ℚ) x) ∧
+  ∃ acts, acts.length ≤ 1 ∧ (∀ x ∈ acts, DRR.ActOk (Lmax : ℚ) x) ∧
     runActs (DRR.sched cfg) (toM cfg.flows flow size a hist t) acts =
       .ok (toM cfg.flows flow size a' (hist ++ new) t, putPk flow size new, outPk flow size new)
 
@@ -1429,13 +1429,13 @@ def outOf : MOut ℚ → List MPkt
 
 theorem ltsOK_nothing {a a' : A} {hist : List (HEv ℚ)} {t : ℚ}
     (h : toM cfg.flows flow size a' (hist ++ []) t = toM cfg.flows flow size a hist t) : LtsOK flow size cfg Lmax a hist t a' [] :=
-  ⟨[], (by intro x hx; cases hx), (by rw [h]; rfl)⟩
+  ⟨[], Nat.zero_le _, (by intro x hx; cases hx), (by rw [h]; rfl)⟩
 
 theorem ltsOK_one {a a' : A} {hist new : List (HEv ℚ)} {t : ℚ} (act : MAct ℚ) (o : MOut ℚ) (hact : DRR.ActOk (Lmax : ℚ) act)
     (h : MQ.step (DRR.sched cfg) (toM cfg.flows flow size a hist t) act = .ok (toM cfg.flows flow size a' (hist ++ new) t, o))
     (hin : putPk flow size new = insOf act) (hout : outPk flow size new = outOf o) :
     LtsOK flow size cfg Lmax a hist t a' new := by
-  refine ⟨[act], by intro x hx; simp only [List.mem_singleton] at hx; rw [hx]; exact hact, ?_⟩
+  refine ⟨[act], Nat.le_refl _, by intro x hx; simp only [List.mem_singleton] at hx; rw [hx]; exact hact, ?_⟩
   simp only [runActs, h, hin, hout]
   cases act <;> cases o <;> rfl
 
@@ -1840,11 +1840,11 @@ theorem lts_tick {a : A} {hist : List (HEv ℚ)} (hi : AInv flow F size cfg Lmax
 
 /-- zero or one `tick` brings the LTS to the instant of the next entry -/
 theorem lts_advance {a : A} {hist : List (HEv ℚ)} (hi : AInv flow F size cfg Lmax P a now) (hq : IsMin a q) :
-    ∃ acts, (∀ x ∈ acts, DRR.ActOk (Lmax : ℚ) x) ∧
+    ∃ acts, acts.length ≤ 1 ∧ (∀ x ∈ acts, DRR.ActOk (Lmax : ℚ) x) ∧
       runActs (DRR.sched cfg) (toM cfg.flows flow size a hist now) acts = .ok (toM cfg.flows flow size a hist q.time, [], []) := by
   rcases eq_or_lt_of_le (hi.now_le hq) with h | h
-  · exact ⟨[], (by intro x hx; cases hx), (by rw [← h]; rfl)⟩
-  · refine ⟨[.tick q.time], (by intro x hx; simp only [List.mem_singleton] at hx; rw [hx]; exact fun p hp => by cases hp), ?_⟩
+  · exact ⟨[], Nat.zero_le _, (by intro x hx; cases hx), (by rw [← h]; rfl)⟩
+  · refine ⟨[.tick q.time], Nat.le_refl _, (by intro x hx; simp only [List.mem_singleton] at hx; rw [hx]; exact fun p hp => by cases hp), ?_⟩
     simp only [runActs, lts_tick hi hq h]
     rfl
 
